@@ -74,6 +74,8 @@ def make_spec(run_seed, tier, prop, choice_weights=None, forced_prob=0.0, branch
         spec["warmup"] = {"text": warmup, "seed": rs.randrange(1000)}
     if text.startswith("{[]") and text.count("{") == 1 and text.rstrip().endswith("|") and "[]}" in text and rnd.random() < 0.35:
         spec["entry"] = "stochastic"  # the same string through the user-facing Stochastic class
+    if "entry" not in spec and rs.random() < 0.07:
+        spec["entry"] = "staged"  # element by element through the copies handed out by Molecule.elements (genrun.py)
     if "hub" in tags:
         spec["cap_mass"] = min(spec["cap_mass"], 400)  # branched growth caps every open branch after every step: O(n^2) attaches
     if rnd.random() < forced_prob:
